@@ -213,6 +213,23 @@ func (p *Pool) Contains(ip net.IP) bool {
 	return p.Network.Contains(ip)
 }
 
+// Reassign moves the allocation held by oldMAC to newMAC (replacement CPE on
+// the same circuit). An address newMAC held before goes back to the pool.
+func (p *Pool) Reassign(oldMAC, newMAC net.HardwareAddr) {
+	p.mu.Lock()
+	defer p.mu.Unlock()
+
+	ip, exists := p.allocated[oldMAC.String()]
+	if !exists {
+		return
+	}
+	delete(p.allocated, oldMAC.String())
+	if prev, had := p.allocated[newMAC.String()]; had && !prev.Equal(ip) {
+		p.available = append(p.available, prev)
+	}
+	p.allocated[newMAC.String()] = ip
+}
+
 // MarkUnavailable marks an IP as unavailable (e.g., after DECLINE)
 func (p *Pool) MarkUnavailable(ip net.IP) {
 	p.mu.Lock()
